@@ -96,7 +96,16 @@ Definition mig_model (c : World.world * (str + (str * cfgdata)) * store * list b
                 dict(classes=[K(0, 'A', params=[P('x')]), K(1, 'B', group='g', meta_inputs=[{'cls': 0}])],
                      files={'multi.json': {'configs': {'p0': {'tasks': ['@M.A'], 'x': 1},
                                                        'p1': {'tasks': ['@M.B'], 'uses': '#p0'}}}},
-                     base={'file': 'multi.json#p1'}, context=None, compute=[0, 1], drys=[True, False], verbose=True)]
+                     base={'file': 'multi.json#p1'}, context=None, compute=[0, 1], drys=[True, False], verbose=True),
+                # two parts of one multi-config file under two namespaces, the same task classes in both, everything computed
+                dict(classes=[K(0, 'A', params=[P('x')]), K(1, 'B', group='g', meta_inputs=[{'cls': 0}])],
+                     files={'multi.json': {'configs': {'small': {'tasks': ['@M.*'], 'x': 1}, 'big': {'tasks': ['@M.*'], 'x': 2}}},
+                            'main.json': {'uses': ['multi.json#small as small', 'multi.json#big as big']}},
+                     base={'file': 'main.json'}, context=None, compute=[0, 1, 2, 3], drys=[True, False, False], verbose=False),
+                dict(classes=[K(0, 'A', params=[P('x')]), K(1, 'B', group='g', meta_inputs=[{'cls': 0}])],
+                     files={'multi.json': {'configs': {'small': {'tasks': ['@M.*'], 'x': 1}, 'big': {'tasks': ['@M.*'], 'x': 2}}},
+                            'main.json': {'uses': ['multi.json#big as big', 'multi.json#small as small']}},
+                     base={'file': 'main.json'}, context=None, compute=[2, 3], drys=[False, False], verbose=False)]
 
     def gen(self, rng, tier):
         from ..gen_pipeline import gen_case
